@@ -659,6 +659,8 @@ class Evaluator:
                 return args[0]
             if f.id == "bool" and len(args) == 1:
                 return self.truth(args[0])
+            if f.id in ("list", "dict", "tuple", "set") and not args and not e.keywords:
+                return {"list": list, "dict": dict, "tuple": tuple, "set": set}[f.id]()
             if f.id == "enumerate" and 1 <= len(args) <= 2 and isinstance(args[0], (list, tuple, str)) and not e.keywords:
                 start = args[1] if len(args) == 2 else 0
                 if isinstance(start, int):
